@@ -19,6 +19,7 @@ type fnCase struct {
 	Zero  bool   `json:"zero,omitempty"` // Extract: the catalog stores the zero value under its first key; Merge: under every other key
 	Elem  string `json:"elem,omitempty"` // Concatenate: element type (codec)
 	Hist  int    `json:"hist,omitempty"` // Merge, Extract: how the catalogs got their content (see catalogWithPast)
+	Keys  string `json:"keys,omitempty"` // Extract: the kind of the key sequence: List (default) Array Set Stack Queue
 }
 
 // catalogWithPast fills a catalog through a history: 0 = set the pairs on a fresh catalog; 1 = two other keys
@@ -375,9 +376,25 @@ func execFnOther(c fnCase, _ core.Source) (res core.Result) {
 				cat.SetValue(q.K, q.V)
 			}
 		})
+		// the requested keys come as a sequence of any kind; their order is the order in which that sequence
+		// lists them (a Set lists them ascending and once, a Stack top first)
+		var keys col.Sequential[int]
+		switch c.Keys {
+		case "Array":
+			keys = col.Array[int](n).MakeFromArray(c.B)
+		case "Set":
+			keys = col.Set[int](n).MakeFromArray(c.B)
+		case "Stack":
+			keys = col.Stack[int](n).MakeFromArray(c.B)
+		case "Queue":
+			keys = col.Queue[int](n).MakeFromArray(c.B)
+		default:
+			keys = col.List[int](n).MakeFromArray(c.B)
+		}
+		requested := append([]int{}, keys.AsArray()...)
 		want := []kv{}
 		absent, repeated := false, false
-		for _, k := range c.B {
+		for _, k := range requested {
 			present := false
 			for _, q := range pa {
 				if q.K == k {
@@ -399,9 +416,8 @@ func execFnOther(c fnCase, _ core.Source) (res core.Result) {
 				absent = true
 			}
 		}
-		keys := col.List[int](n).MakeFromArray(c.B)
 		var r col.CatalogLike[int, int]
-		desc := fmt.Sprintf("Extract(%s, keys %v)", pairsString(pa), c.B)
+		desc := fmt.Sprintf("Extract(%s, the keys %v as a %s)", pairsString(pa), requested, c.Keys)
 		p, payload := lib.Call(func() { r = C.Extract(cat, keys) })
 		if p || r == nil {
 			res.Violation = core.Violate("C16/Extract/panicked", "%s panicked or returned nil: %s", desc, lib.Short(payload))
@@ -423,7 +439,7 @@ func execFnOther(c fnCase, _ core.Source) (res core.Result) {
 			res.Violation = core.Violate("C16/Extract/not-new", "%s returned its operand", desc)
 			return
 		}
-		if !eqPairs(catalogPairs(cat), pa) || !lib.EqInts(keys.AsArray(), c.B) {
+		if !eqPairs(catalogPairs(cat), pa) || !lib.EqInts(keys.AsArray(), requested) {
 			res.Violation = core.Violate("C16/Extract/operand-changed", "%s changed an operand", desc)
 			return
 		}
@@ -443,7 +459,9 @@ func execFnOther(c fnCase, _ core.Source) (res core.Result) {
 			x.SetValue(-9)
 		}
 		cat.RemoveAll()
-		keys.RemoveAll()
+		if l, ok := keys.(col.ListLike[int]); ok {
+			l.RemoveAll()
+		}
 		if !eqPairs(catalogPairs(r), snapshot) {
 			res.Violation = core.Violate("C16/Extract/operand-aliases-result", "mutating the operands of %s changed the result", desc)
 			return
@@ -518,6 +536,7 @@ func genFnExhaustive(s core.Source) fnCase {
 		c.A = enumOrderedSubset(s, 3, "a") // keys 0..2 present (some of them), key 3.. absent
 		c.Zero = s.Choose(2, "zero") == 1
 		c.Hist = s.Choose(4, "hist")
+		c.Keys = core.Pick(s, []string{"List", "Set", "Stack"}, "keys-kind")
 		c.B = enumList(s, 4, 3, "keys")
 	}
 	return c
@@ -540,6 +559,7 @@ func genFnRandom(s core.Source) fnCase {
 		c.A = enumOrderedSubset(s, 6, "a")
 		c.Zero = s.Choose(2, "zero") == 1
 		c.Hist = s.Choose(4, "hist")
+		c.Keys = core.Pick(s, []string{"List", "Array", "Set", "Stack", "Queue"}, "keys-kind")
 		c.B = enumList(s, 8, 10, "keys")
 	}
 	if c.Alias {
